@@ -272,6 +272,54 @@ def probe(tier, seed):
                     if internal(G) != before:
                         row["effect"] = 2
                         fails.append(F("C19.blocked_but_mutates", cls="function", call=fname))
+            # the other module-level helpers (dn.*): none of them may leave the graph inconsistent either, and the
+            # read-only ones must not change it at all
+            a0 = nodes[0] if nodes else 900
+            FUNC_ARGS = {"nodes": [(), (0,)], "interactions": [(), (None, 0), ([a0], None)], "degree": [(), ([a0], 0)], "degree_histogram": [(), (0,)],
+                         "neighbors": [(a0,), (a0, 0)], "number_of_nodes": [(), (0,)], "number_of_interactions": [(), (a0, a0, 0)], "density": [(), (0,)],
+                         "is_directed": [()], "is_frozen": [()], "subgraph": [([a0],), ([],)], "create_empty_copy": [(), (False,)],
+                         "set_node_attributes": [({a0: 1, 901: 2}, "w"), (3, "w"), ({a0: {"x": 1}, 902: {"x": 2}},)], "get_node_attributes": [("w",)],
+                         "all_neighbors": [(a0,), (a0, 0)], "non_neighbors": [(a0,), (a0, 0)], "non_interactions": [(), (0,)], "is_empty": [()],
+                         "time_slice": [(0,), (0, 3)], "stream_interactions": [()], "interactions_per_snapshots": [(), (0,)], "temporal_snapshots_ids": [()],
+                         "inter_event_time_distribution": [(), (a0,)]}
+            READ_ONLY = set(FUNC_ARGS) - {"set_node_attributes"}
+            for fname, variants in FUNC_ARGS.items():
+                fn = getattr(dn, fname, None)
+                if fn is None:
+                    continue
+                for args in variants:
+                    G = copy.deepcopy(G0)
+                    before = internal(G)
+                    exc = None
+                    try:
+                        r = fn(G, *args)
+                        if inspect.isgenerator(r) or hasattr(r, "__next__"):
+                            for _ in zip(range(50), r):
+                                pass
+                        if fname == "is_directed" and bool(r) != G0.is_directed():
+                            fails.append(F("C19.function_result", call="dn.is_directed", got=repr(r)))
+                        if fname == "is_frozen" and r:
+                            fails.append(F("C19.function_result", call="dn.is_frozen on a graph that was never frozen", got=repr(r)))
+                        if fname == "create_empty_copy" and (type(r) is not K or r.number_of_nodes() != G0.number_of_nodes() or list(r.stream_interactions())):
+                            fails.append(F("C19.function_result", call="dn.create_empty_copy", got=repr(r)))
+                    except Exception as ex:  # noqa
+                        exc = ex
+                    n_calls += 1
+                    key = ("function", fname)
+                    row = rows.setdefault(key, {"cls": "function", "name": fname, "inherited": False, "overridden": True, "decorated": fname in deco["function"],
+                                                "listed": False, "calls": 0, "nxni": 0, "raised": 0, "effect": 0, "inconsistent": 0, "timed": False})
+                    row["calls"] += 1
+                    if exc is not None:
+                        row["raised"] += 1
+                    after = internal(G)
+                    if after != before:
+                        row["effect"] = max(row["effect"], 1)
+                        if fname in READ_ONLY:
+                            fails.append(F("C19.query_mutates", call="dn." + fname, args=repr(args)))
+                    cons = consistent(G, im)
+                    if cons is not None:
+                        row["inconsistent"] += 1
+                        fails.append(F("C19.inconsistent_state", cls="function", call=fname, args=repr(args), problem=cons))
             # freeze
             G = copy.deepcopy(G0)
             Gf = dn.freeze(G)
